@@ -23,7 +23,7 @@ with ThreadPoolExecutor(max_workers=8) as ex:
     if 'mutants' in what:
         for pid, (code, out, dt) in zip(pids, ex.map(lambda p: sh(['./verif', 'mutants', p]), pids)):
             n = len([l for l in out.splitlines() if 'killed by' in l])
-            sv = [l for l in out.splitlines() if 'SURVIVED' in l or 'skipped' in l]
+            sv = [l for l in out.splitlines() if 'SURVIVED' in l or ' skipped (' in l]
             print('mutants %-4s %d killed, %d not  %.1fs' % (pid, n, len(sv), dt))
             for l in sv:
                 bad.append('mutant %s %s' % (pid, l[:120]))
